@@ -262,6 +262,52 @@ def explore(name, level, seed):
                 check("(chain %s)-(same chain)" % desc, acc - acc, (0, 0, 0), [(desc, acc, s_acc)], False)
                 check("(chain %s)*(p-1)" % desc, acc * (p - 1), tuple(-a for a in want), [(desc, acc, s_acc)], False)
     st["long_chain_steps"] = nlong
+    # many variables: combinations over 4..6 variables built in DIFFERENT insertion orders with non-uniform coefficients;
+    # sums / differences of two combinations with the same support, overlapping support, disjoint support
+    vs = [api.m.privval(20 + i) for i in range(6)]
+    keys = [api._key(v) for v in vs]
+
+    def gform(obj):
+        acc = {}
+        if api.kind == "sig":
+            for c, nm in obj.sig:
+                acc[nm] = (acc.get(nm, 0) + c) % p
+        else:
+            for k_, c in obj.lc.items():
+                acc[k_] = (acc.get(k_, 0) + c) % p
+        return {k_: c for k_, c in acc.items() if c}
+
+    def build(order, coefs):
+        o, w = api.m.zero(), {}
+        for i in order:
+            o = o + (vs[i] * coefs[i] if coefs[i] != 1 else vs[i])
+            w[keys[i]] = (w.get(keys[i], 0) + coefs[i]) % p
+        return o, w
+    nmulti = 0
+    coefsets = [(1, 1, 1, 1, 1, 1), (3, 5, 7, 9, 11, 13), (p - 1, 2, p - 3, 4, 1, 6), (2 ** 300, 1, 1, 1, 1, 1)]
+    supports = [(0, 1, 2, 3), (0, 1, 2, 3, 4), (0, 1, 2, 3, 4, 5), (2, 3, 4, 5), (0, 1), (4, 5, 0)]
+    for sa in supports:
+        for sb in supports:
+            for ca in coefsets[:3]:
+                for cb in coefsets:
+                    for oa, ob in ((sa, tuple(reversed(sb))), (tuple(reversed(sa)), sb[1:] + sb[:1])):
+                        a, wa = build(oa, ca)
+                        b, wb = build(ob, cb)
+                        sna, snb = api.snap(a), api.snap(b)
+                        for opn, r, sign in (("+", a + b, 1), ("-", a - b, -1)):
+                            nmulti += 1
+                            st["trees"] += 1
+                            st["transitions"] += 1
+                            want = dict(wa)
+                            for k_, c in wb.items():
+                                want[k_] = (want.get(k_, 0) + sign * c) % p
+                            want = {k_: c for k_, c in want.items() if c}
+                            if gform(r) != want:
+                                bad("wrong-linear-form", "(combination over variables %s, coefficients %s) %s (combination over %s in order %s, coefficients %s) has a wrong linear form"
+                                    % (list(oa), [str(c)[:6] for c in ca[:len(oa)]], opn, list(sb), list(ob), [str(c)[:6] for c in cb[:len(ob)]]))
+                        if api.snap(a) != sna or api.snap(b) != snb:
+                            bad("operand-mutated", "sum / difference of two many-variable combinations changed an operand")
+    st["multi_variable_sums"] = nmulti
     # the shared leaves must still be what they were
     for d, o, w in leaves:
         f, junk = api.form(o)
@@ -275,6 +321,9 @@ def explore(name, level, seed):
     inv_args = [1, -1, 2, -2, 3, 7, p - 1, -(p - 1), p + 1, -(p + 5), 2 * p + 3, 2 ** 300, -(2 ** 300) - 1, (p - 1) // 2,
                 (p + 1) // 2, p - 2, 2 ** 64, -(2 ** 64), 12345678901234567890, p * p + 1, 5 * p - 1, -3 * p + 2, 6, 10 ** 30,
                 2 ** 253, -(2 ** 200), 65537, p + 2, -7, 2 ** 128 + 1]
+    # structured arguments: every power of two up to 2^40 (and its negative / neighbours), small multipliers, +-1000 window
+    inv_args += [2 ** k for k in range(2, 41)] + [-(2 ** k) for k in range(1, 41, 3)] + [2 ** k - 1 for k in range(2, 41, 2)]
+    inv_args += [5, 9, 10, 12, 100, 255, 256, 257, 990, 997, 999, 1000, 1001, -3, -10, -990, -999, -1000, 1023, 1024, 4096, 65535, 65536]
     ninv = 0
     for a in inv_args:
         ninv += 1
@@ -324,7 +373,7 @@ def run(ctx):
     ctx.cov["distinct_outcomes"] = agg["distinct_forms"]
     ctx.cov["traces_validated_against_impl"] = agg["trees"]
     ctx.cov["exhaustive"] = True
-    ctx.cov["rule"] = ("expression trees over leaves zero/one/v1/v2/shared v1 with + - neg and 9 scalars (and left-deep sums of up to 40 (300 for single-atom patterns) terms with repeated wires, for every cyclic pattern of three signed / scaled leaves): ALL trees of depth <= 2 "
+    ctx.cov["rule"] = ("expression trees over leaves zero/one/v1/v2/shared v1 with + - neg and 9 scalars (left-deep sums of up to 40 (300 for single-atom patterns) terms with repeated wires, and sums / differences of combinations over 4-6 variables built in different insertion orders, for every cyclic pattern of three signed / scaled leaves): ALL trees of depth <= 2 "
                        "(evaluated on 16 assignments), every unary operator and leaf-binary operator on depth-2 trees (all of "
                        "them thorough, every 4th quick) compared by linear form mod p; operands re-inspected after every "
                        "operation; per backend: snarkjs, zkinterface x3 fields, qaptools Sig, recorder as control; "
